@@ -1,6 +1,8 @@
 package wasp
 
 import (
+	"bytes"
+
 	"github.com/vx-labs/mqtt-protocol/packet"
 	rt "github.com/vx-labs/wasp/v4/zzsymxrt"
 )
@@ -172,5 +174,59 @@ func symxC18D() {
 	}
 	b.cancel()
 	c.Close()
+	rt.Quiesce()
+}
+
+// symxC18E: two clients accepted by the same setup worker. The victim's PUBLISH (remaining
+// length of two bytes) reaches the broker in two pieces, split at a solver-chosen offset, and
+// between the two pieces the other client sends a valid packet of its own (PINGREQ, or a
+// PUBLISH, by solver choice). Whatever one client sends, the other is served as if alone: the
+// victim's message reaches the subscriber intact and both connections stay up.
+func symxC18E() {
+	b := symxNewBroker(1, 1)
+	p := b.start(nil)
+	f := p.front(&symxAuth{mountPoint: "m", ids: []string{"x1", "x2", "x3"}})
+	sub, victim, other := symxNewConn(), symxNewConn(), symxNewConn()
+	rt.Assert(f.connect(sub, symxConnectBytes("csub", 30, "", nil, nil, 0, false)) == nil, "C18.connect_accepted")
+	rt.Assert(f.connect(victim, symxConnectBytes("cvic", 30, "", nil, nil, 0, false)) == nil, "C18.connect_accepted")
+	rt.Assert(f.connect(other, symxConnectBytes("coth", 30, "", nil, nil, 0, false)) == nil, "C18.connect_accepted")
+	rt.Quiesce()
+	symxTick()
+	sub.feed(symxSubscribeBytes(1, "#", 0))
+	rt.Quiesce()
+	payload := make([]byte, 140)
+	for k := range payload {
+		payload[k] = byte('A' + k%26)
+	}
+	pub := symxPublishBytes("v", payload, 1, 9, false)
+	cut := int(rt.Int("split_at", 1, 6))
+	symxTick()
+	victim.feed(pub[:cut])
+	rt.Quiesce()
+	symxTick()
+	if rt.Bool("other_client_publishes") {
+		other.feed(symxPublishBytes("o", []byte("x"), 0, 0, false))
+	} else {
+		other.feed(symxPingReq())
+	}
+	rt.Quiesce()
+	symxTick()
+	victim.feed(pub[cut:])
+	rt.Quiesce()
+	symxPoolRetryWait(2)
+	rt.Assert(!victim.isClosed() && !other.isClosed(), "C18.other_clients_unaffected")
+	rt.Assert(symxCount(victim.written(), packet.PUBACK) == 1, "C18.publish_acknowledged")
+	found := 0
+	for _, g := range symxPublishes(sub.written()) {
+		if string(g.Topic) == "v" && bytes.Equal(g.Payload, payload) {
+			found++
+		}
+	}
+	rt.Assert(found == 1, "C18.split_packet_of_one_client_survives_traffic_of_another")
+	rt.Cover(cut == 2, "C18.split_inside_the_remaining_length")
+	b.cancel()
+	sub.Close()
+	victim.Close()
+	other.Close()
 	rt.Quiesce()
 }
